@@ -64,21 +64,36 @@ func cAllowed(a *allowedIn) string {
 	return fmt.Sprintf("(Some {| al_kinds := %s; al_namespaces := %s |})", hx.List(ks), ns)
 }
 
-func cCluster(in *clusterIn, obs *observed) string {
+// cCluster prints the objects the sync of API version v reads: the GatewayClasses, Gateways and
+// HTTPRoutes of that version, every TCPRoute, and the shared Services and Namespaces.
+func cCluster(in *clusterIn, v string, obs *observed) string {
 	var classes, gws, routes, svcs, nss []string
 	for _, c := range in.Classes {
+		if versionOf(in, c.V) != v {
+			continue
+		}
 		classes = append(classes, fmt.Sprintf("{| gc_name := %s; gc_controller := %s |}", hx.Str(c.Name), hx.Str(c.Controller)))
 	}
 	for _, g := range in.Gateways {
+		if versionOf(in, g.V) != v {
+			continue
+		}
 		var ls []string
 		for _, l := range g.Listeners {
-			ls = append(ls, fmt.Sprintf("{| l_name := %s; l_hostname := %s; l_port := %s; l_allowed := %s |}",
-				hx.Str(l.Name), cOstr(l.Hostname), hx.Z(int64(l.Port)), cAllowed(l.Allowed)))
+			tls := "None"
+			if l.TLS != nil {
+				tls = "(Some " + cOstr(l.TLS.Mode) + ")"
+			}
+			ls = append(ls, fmt.Sprintf("{| l_name := %s; l_hostname := %s; l_port := %s; l_protocol := %s; l_tls := %s; l_allowed := %s |}",
+				hx.Str(l.Name), cOstr(l.Hostname), hx.Z(int64(l.Port)), hx.Str(l.Protocol), tls, cAllowed(l.Allowed)))
 		}
 		gws = append(gws, fmt.Sprintf("{| g_ns := %s; g_name := %s; g_class := %s; g_listeners := %s |}",
 			hx.Str(g.NS), hx.Str(g.Name), hx.Str(g.Class), hx.List(ls)))
 	}
 	for _, r := range in.Routes {
+		if !r.TCP && versionOf(in, r.V) != v {
+			continue
+		}
 		var ps, rules []string
 		for _, p := range r.Parents {
 			ps = append(ps, fmt.Sprintf("{| p_group := %s; p_kind := %s; p_ns := %s; p_name := %s; p_section := %s |}",
@@ -102,7 +117,7 @@ func cCluster(in *clusterIn, obs *observed) string {
 			}
 			rules = append(rules, fmt.Sprintf("{| r_matches := %s; r_backends := %s |}", hx.List(ms), hx.List(bs)))
 		}
-		kk := "http:"
+		kk := "http:" + v + ":"
 		if r.TCP {
 			kk = "tcp:"
 		}
@@ -147,7 +162,10 @@ func coqLink(s string) string {
 }
 
 func coqCase(id int, in *clusterIn, obs *observed) string {
-	var paths, backs, tcps []string
+	var cls, paths, backs, tcps, hpb []string
+	for _, v := range enabledVersions(in) {
+		cls = append(cls, cCluster(in, v, obs))
+	}
 	for _, p := range obs.Paths {
 		paths = append(paths, hx.Tuple(coqLink(p.Link), hx.Str(p.Backend)))
 	}
@@ -161,5 +179,9 @@ func coqCase(id int, in *clusterIn, obs *observed) string {
 	for _, t := range obs.TCP {
 		tcps = append(tcps, hx.Tuple(hx.Z(int64(t.Port)), hx.Str(t.Backend)))
 	}
-	return fmt.Sprintf("{| gid := %s; gcl := %s;\n   o_paths := %s; o_backs := %s; o_tcp := %s |}", hx.N(id), cCluster(in, obs), hx.List(paths), hx.List(backs), hx.List(tcps))
+	for _, h := range obs.HPB {
+		hpb = append(hpb, hx.Tuple(hx.Str(h.Host), hx.Str(h.Backend)))
+	}
+	return fmt.Sprintf("{| gid := %s; gcls := %s;\n   o_paths := %s; o_backs := %s; o_tcp := %s; o_modetcp := %s; o_pass := %s; o_hpb := %s |}",
+		hx.N(id), hx.List(cls), hx.List(paths), hx.List(backs), hx.List(tcps), cStrs(obs.ModeTCP), cStrs(obs.Pass), hx.List(hpb))
 }
